@@ -148,4 +148,12 @@ PROPS["C13"] = {
     "assumptions": ["typed getters are recorded as Get + conversion (conversion is C15)", "values are small naturals; keys k0..k2"],
 }
 
+PROPS["C20"] = {
+    "parts": [{"family": "wait", "admits": "WaitCorr.admits_wait", "model_obs": "(fun sc => model_obs (ws_es sc))", "timeout": 900}],
+    "level_text": "Partial (real time is a runtime matter). Proved over a logical clock: C20_node_waits and C20_item_waits_sequential (for every oracle - all user code and every answer to 'was the context cancelled during this wait' -, node kind, budget N >= 1, wait w and start state, the events of the retry loop of Run and of its batch copy are accepted by the wait monitor: no wait before the first attempt, exactly one wait between a failed attempt and the next when w > 0, none after the last attempt or a success, nothing after an interrupted wait; the loop's answer fits the monitor's final state), C20_interrupted_wait_aborts + C20_abort_ends_run (an interrupted wait ends the loop at once with the context's error, and Run returns it with no fallback and no post), C20_item_waits_every_schedule (the same acceptance for every batch item under EVERY schedule of submitter, workers and asynchronous cancellation), C20_gap (any timed sequence the monitor accepts, made in order, whose waits-followed-by-an-attempt lasted >= w, has every attempt after a failed one beginning >= w after that one ended: gaps_from, the predicate applied to the measured timestamps), and rejection examples for each forbidden shape. Implementation side: callback trace and outcome must equal the model's (scripted interruption of a chosen wait, realised by cancelling the context from outside 30 ms after the failed attempt before it), with monotonic-clock readings at entry and exit of every exec callback judged inside Coq by gaps_from (lower bound only), return-after-cancel <= min(5 s, w/2), and for a single node: context-class error and the failed attempt as the last callback. Waits 1..50 ms and 1 h / 2 s; budgets 2..5; single nodes of every retryable kind, batch items sequential and concurrent (gated). Not proved: that time.After(w) lasts at least w and that select returns when ctx.Done() fires (Go runtime; measured).",
+    "level_note": _T + " Waits are pseudo-events of the model (not observable on the code without hooks): their position is checked through trace equality around them and through the clock readings.",
+    "explanation": "wait monitor proved of the retry loop (both copies) and of batch items under every schedule; clock lemma; scripted interruptions and measured gaps on the implementation",
+    "assumptions": ["each node is visited once per run in C20 scenarios", "time.After(w) takes at least w; select wakes on ctx.Done() (Go runtime)", "the harness cancels 30 ms after the failed attempt returned: the engine is assumed to have reached its wait by then (a later arrival would still be a context error, at a different wrap site, which the comparison ignores)"],
+}
+
 NOT_APPLICABLE = {}
